@@ -304,7 +304,7 @@ Section Step.
 
   Lemma step_wf s r : WF s -> WF (step origin s r) /\ extends s (step origin s r).
   Proof.
-    intros W. destruct r as [pid ppid tid ptid ts | pid tid ts | pid tid name ex ts | pid tid ts | pid tid]; cbn [step].
+    intros W. destruct r as [pid ppid tid ptid ts | pid tid ts | pid tid name ex ts | pid tid ts | pid tid | pid tid]; cbn [step].
     - destruct (get_by_pid s ppid) as [s1 parent] eqn:E1. destruct (get_by_pid_wf _ _ _ _ W E1) as [W1 [X1 A1]].
       destruct (negb (pid =? ppid)).
       + destruct (get_new_process_wf s1 pid (lp_name parent) (conv origin ts) W1) as [W2 X2]. split; [exact W2 | eapply extends_trans; eauto].
@@ -372,6 +372,10 @@ Section Step.
       destruct (cur_time s =? origin); [split; [exact W1 | exact X1]|].
       destruct (get_thread_by_tid s1 pid p tid) as [[s2 p2] t] eqn:E2.
       destruct (get_thread_by_tid_wf _ _ _ _ _ _ _ W1 A1 E2) as [W2 [X2 _]]. cbn [fst]. split; [exact W2 | eapply extends_trans; eauto].
+    - destruct (tid =? 0); [split; [exact W | apply extends_refl]|].
+      destruct (get_by_pid s pid) as [s1 p] eqn:E1. destruct (get_by_pid_wf _ _ _ _ W E1) as [W1 [X1 A1]].
+      destruct (get_thread_by_tid s1 pid p tid) as [[s2 p2] t] eqn:E2.
+      destruct (get_thread_by_tid_wf _ _ _ _ _ _ _ W1 A1 E2) as [W2 [X2 _]]. cbn [fst]. split; [exact W2 | eapply extends_trans; eauto].
   Qed.
 
   Lemma wf_init : WF (init origin).
@@ -414,7 +418,7 @@ Section History.
     induction rs as [|r rs IH]; intros s h t W H; [destruct H|]. cbn [accepted fold_left] in *.
     destruct (step_wf origin s r W) as [W1 X1].
     apply in_app_or in H. destruct H as [H|H].
-    - destruct r as [| | |pid tid ts|]; try (cbn [accepted_step] in H; destruct H; fail).
+    - destruct r as [| | |pid tid ts| |]; try (cbn [accepted_step] in H; destruct H; fail).
       destruct (accepted_step_right_thread origin s pid tid ts h t W H) as [e [pe [H1 [H2 [H3 H4]]]]].
       assert (Ht : tid <> 0 /\ t = ts - origin).
       { cbn [accepted_step] in H. destruct (tid =? 0) eqn:E0; [destruct H|]. destruct (get_by_pid _ pid) as [s1 p]. destruct (get_thread_by_tid s1 pid p tid) as [[s2 p2] th].
